@@ -479,16 +479,7 @@ func (w *world) write(idxs []int, kind string) error {
 			w.add(vlib.JoinSig(kind, "route", "group-does-not-contain-point", "ts="+tClass[ix]), fmt.Sprintf("point at %s=%d mapped to shard %d of group %v whose [start,end) does not contain it", tNames[ix], t, sh, *g))
 			continue
 		}
-		// exactly one live group (effective range) may claim the point's timestamp
-		n := 0
-		for _, o := range post {
-			if !o.Del && !time.Unix(0, t).Before(o.S) && time.Unix(0, t).Before(o.effEnd()) {
-				n++
-			}
-		}
-		if n > 1 {
-			w.add(vlib.JoinSig(kind, "route", "several-live-groups-claim-point", "ts="+tClass[ix]), fmt.Sprintf("%d live groups contain %s=%d after the write: %v", n, tNames[ix], t, post))
-		}
+		// (that no second live group claims the timestamp is the non-overlap clause, see checkOverlaps)
 		if findByID(pre, g.ID) == nil {
 			w.outcomes = append(w.outcomes, kind+":new-group/"+tClass[ix])
 		} else if g.Tr {
@@ -777,7 +768,7 @@ func TestCheck(t *testing.T) {
 			"which groups TruncateShardGroups marks is not part of the statement: any marking is adopted; only its survival across reload is checked",
 			"inmem KV store stands in for bolt: the persisted form is the same protobuf blob written by meta.Client.commit",
 		},
-		QuickBudgetS: 50, ThoroughBudgetS: 780,
+		QuickBudgetS: 45, ThoroughBudgetS: 780,
 		Run: func(c *vlib.Ctx) {
 			// 16 worker processes share the machine: keep each one's GC from fanning out over all cores
 			runtime.GOMAXPROCS(2)
@@ -799,7 +790,7 @@ func TestCheck(t *testing.T) {
 								continue
 							}
 							if c.Expired() {
-								c.Cap(fmt.Sprintf("budget expired inside history length %d (all shorter lengths complete)", n))
+								c.Cap(fmt.Sprintf("budget expired inside history length %d, d=%s (all shorter lengths and, for this length, all smaller d complete)", n, d))
 								return
 							}
 							ops := make([]Op, n)
